@@ -177,8 +177,8 @@ func panicArgKey(w *World, e ast.Expr) string {
 }
 
 type panicClass struct {
-	Class  string // recovered | reraise | guarded | unreachable | contract
-	Reason string
+	Class   string // recovered | reraise | guarded | unreachable | contract
+	Reason  string
 	Premise func(c *Ctx, ps panicSite) (bool, string) // statically checked premise
 }
 
@@ -220,9 +220,9 @@ func rulePANIC1(c *Ctx) {
 		"Parser.error/bailout{}": {"recovered", "recovered by the deferred function of ParseFile", func(c *Ctx, ps panicSite) (bool, string) {
 			return premiseBailout(c)
 		}},
-		"Parser.ParseFile/e": {"reraise", "re-raises a panic that is not a bailout (nothing is swallowed)", nil},
-		"NewScanner/file_size_(%d)_does": {"guarded", "every NewParser call passes a SourceFile made by AddFile(_, -1, len(src)) for the same src", ruleNamePremise("NEWPARSER")},
-		"SourceFileSet.AddFile/illegal_base_or_size": {"guarded", "every AddFile call passes base -1 and a len(...) size", ruleNamePremise("NEWPARSER")},
+		"Parser.ParseFile/e":                          {"reraise", "re-raises a panic that is not a bailout (nothing is swallowed)", nil},
+		"NewScanner/file_size_(%d)_does":              {"guarded", "every NewParser call passes a SourceFile made by AddFile(_, -1, len(src)) for the same src", ruleNamePremise("NEWPARSER")},
+		"SourceFileSet.AddFile/illegal_base_or_size":  {"guarded", "every AddFile call passes base -1 and a len(...) size", ruleNamePremise("NEWPARSER")},
 		"SourceFileSet.AddFile/offset_overflow_(>_2G": {"unreachable", "needs more than 2^63 bytes of source in one file set on the supported 64-bit targets", nil},
 		"SourceFile.FileSetPos/illegal_file_offset": {"guarded", "called only by the scanner with offsets <= len(src) == file.Size (NewScanner checks the sizes agree)", func(c *Ctx, ps panicSite) (bool, string) {
 			return premiseCallersIn(c, "SourceFile", "FileSetPos", []string{"Scanner.Scan", "Scanner.error"})
@@ -234,10 +234,10 @@ func rulePANIC1(c *Ctx) {
 		"Compiler.Compile/invalid_branch_statement:_%s": {"unreachable", "BranchStmt values are built only by parseBranchStmt, called only under `case token.Break, token.Continue` with p.token", func(c *Ctx, ps panicSite) (bool, string) {
 			return premiseBranchStmt(c)
 		}},
-		"Compiler.Compile/invalid_import_value_type:": {"contract", "custom Importable must return Object or []byte (documented on the interface); both module kinds in the tree do", nil},
+		"Compiler.Compile/invalid_import_value_type:":     {"contract", "custom Importable must return Object or []byte (documented on the interface); both module kinds in the tree do", nil},
 		"Compiler.optimizeFunc/invalid_jump_position:_%d": {"unreachable", "every jump operand is an instruction boundary of the same function or its end: placeholders are patched in their own scope (JMP.1/JMP.2)", ruleNamePremise("JMP.2")},
-		"updateConstIndexes/constant_index_not_found:": {"unreachable", "every CONST/CLOSURE operand was returned by addConstant and RemoveDuplicates maps every pool index (DEDUP.1); instruction streams are not corrupted (JMP.2)", ruleNamePremise("JMP.2")},
-		"Script.prepCompile/wrong_symbol_index:_%d": {"unreachable", "a fresh symbol table hands out consecutive indexes to consecutive Define calls", nil},
+		"updateConstIndexes/constant_index_not_found:":    {"unreachable", "every CONST/CLOSURE operand was returned by addConstant and RemoveDuplicates maps every pool index (DEDUP.1); instruction streams are not corrupted (JMP.2)", ruleNamePremise("JMP.2")},
+		"Script.prepCompile/wrong_symbol_index:_%d":       {"unreachable", "a fresh symbol table hands out consecutive indexes to consecutive Define calls", nil},
 	}
 	seen := map[string]bool{}
 	for _, ps := range w.panicSites(reach) {
